@@ -183,8 +183,12 @@ impl Sched {
     }
 }
 
+static FINE_POINTS: std::sync::atomic::AtomicBool = std::sync::atomic::AtomicBool::new(false);
+
 fn sched_hook(label: &'static str) {
-    if !(label.starts_with("gen:") || label.starts_with("fmt:")) {
+    // section boundaries always; the points inside the two recursive walks only in "fine" plans
+    let fine = FINE_POINTS.load(std::sync::atomic::Ordering::Relaxed);
+    if !(label.starts_with("gen:") || label.starts_with("fmt:") || (fine && label.starts_with("walk:"))) {
         return;
     }
     if let Some(me) = TID.with(|t| t.get()) {
@@ -422,7 +426,17 @@ pub fn run(tier: &str) -> i32 {
     } else {
         vec![(vec![vec![0], vec![1]], 2, 50_000), (vec![vec![0], vec![0]], 1, 50_000), (vec![vec![0, 1], vec![1]], 1, 50_000), (vec![vec![6], vec![1], vec![0]], 1, 50_000), (vec![vec![7], vec![1]], 1, 50_000), (vec![vec![5], vec![1]], 1, 50_000)]
     };
-    for (programs, bound, cap) in &plans {
+    // the same thread programs again with yield points *inside* the stage walk and the type closure
+    // (state that lives only for the duration of one section is invisible at section granularity)
+    let fine_plans: Vec<(Vec<Vec<usize>>, usize, u64)> = if thorough {
+        vec![(vec![vec![0], vec![1]], 2, 200_000), (vec![vec![7], vec![1]], 2, 200_000), (vec![vec![0], vec![0]], 2, 200_000), (vec![vec![7], vec![0], vec![1]], 1, 200_000), (vec![vec![6], vec![7]], 2, 200_000)]
+    } else {
+        vec![(vec![vec![0], vec![1]], 2, 50_000), (vec![vec![7], vec![1]], 1, 50_000)]
+    };
+    let n_coarse = plans.len();
+    let all_plans: Vec<(Vec<Vec<usize>>, usize, u64)> = plans.iter().cloned().chain(fine_plans.into_iter()).collect();
+    for (pi, (programs, bound, cap)) in all_plans.iter().enumerate() {
+        FINE_POINTS.store(pi >= n_coarse, std::sync::atomic::Ordering::SeqCst);
         let t0 = std::time::Instant::now();
         let st = explore_schedules(programs, *bound, &alpha, &reference, *cap);
         rep.states += st.schedules;
@@ -437,13 +451,14 @@ pub fn run(tier: &str) -> i32 {
         }
         // every explored schedule is a distinct decision sequence (the DFS never repeats a prefix)
         for k in 0..st.schedules {
-            rep.nontrivial.insert(hash64(&format!("schedule{names:?}#{k}")));
+            rep.nontrivial.insert(hash64(&format!("schedule{pi}{names:?}#{k}")));
         }
-        sched_report.push(json!({"threads": names, "preemption_bound": bound, "schedules": st.schedules, "decisions": st.decisions, "distinct_outcomes": st.outcomes.len(), "capped": st.schedules >= *cap, "seconds": t0.elapsed().as_secs_f64()}));
+        sched_report.push(json!({"threads": names, "yield_points": if pi >= n_coarse { "sections + walk points" } else { "sections" }, "preemption_bound": bound, "schedules": st.schedules, "decisions": st.decisions, "distinct_outcomes": st.outcomes.len(), "capped": st.schedules >= *cap, "seconds": t0.elapsed().as_secs_f64()}));
         for o in st.outcomes {
             rep.outcomes.insert(o);
         }
     }
+    FINE_POINTS.store(false, std::sync::atomic::Ordering::SeqCst);
     wgsl_to_wgpu::verif::set_hook(None);
     rep.set("schedule_exploration", json!(sched_report));
     // replay determinism: the same prefix twice gives identical decisions and outputs
